@@ -163,6 +163,10 @@ def gen(rng: Any, prop: str, tier: str) -> dict[str, Any]:
                 t, i = rng.choice(mine_in_txn[sid])
                 mine_in_txn[sid].remove((t, i))
                 ops.append({"s": sid, "k": "exec", "cur": cur, "sql": f"DELETE FROM {t} WHERE id = {i}", "d": {"table": t, "ids": [i]}})
+        elif kind == "read" and new_tables and rng.random() < 0.25:
+            # a reader who mistypes the name of a table another transaction may just be creating: the error must not name that table
+            t = rng.choice(new_tables[-2:])
+            ops.append({"s": sid, "k": "exec", "cur": cur, "sql": f"SELECT id FROM {DB}.{SC}.{t[:-1]}Z", "typo_of": t})
         elif kind == "read":
             t = rng.choice(all_tables + new_tables[-2:])
             ops.append({"s": sid, "k": "exec", "cur": cur, "sql": f"SELECT id FROM {DB}.{SC}.{t}", "r": [t]})
@@ -235,6 +239,13 @@ def check_history(history: list[dict[str, Any]], probes: dict[str, int]) -> dict
                 continue
             if cur is not None and cur.get("doomed") and not out.get("ok") and t not in ("commit", "rollback"):
                 continue  # the engine refuses statements of an aborted transaction until it is ended: tolerated, nothing recorded
+            if op.get("typo_of"):
+                if out.get("ok") or out.get("exc") != "ProgrammingError":
+                    return v_(f"fail-outcome/{out.get('exc')}", "a read of a table that does not exist must raise ProgrammingError", brief(h))
+                h["_typo"] = True
+                if cur is not None:
+                    cur.setdefault("typo_reads", 0)
+                continue
             if op.get("fail"):
                 probes["fail_in_txn"] = probes.get("fail_in_txn", 0) + (1 if cur is not None else 0)
                 if out.get("ok") or out.get("exc") != "ProgrammingError":
@@ -299,6 +310,13 @@ def check_history(history: list[dict[str, Any]], probes: dict[str, int]) -> dict
     for sid, hs in per.items():
         for h in hs:
             op = h["op"]
+            if h.get("_typo"):
+                tx = table_txn.get(op["typo_of"])
+                if tx is not None and tx["s"] != sid and (tx["state"] != "committed" or h["ret"] < tx["end"]["inv"]) and not tx.get("doomed"):
+                    probes["typo_read_during_foreign_create"] = probes.get("typo_read_during_foreign_create", 0) + 1
+                    if op["typo_of"] in str(h["out"].get("msg")):
+                        return v_("uncommitted-table-named-in-error", "an error message names a table that only exists inside a foreign, uncommitted transaction", {"read": brief(h), "table": op["typo_of"], "txn_of": tx["s"]})
+                continue
             if "r" in op and h.get("_missing_table"):
                 # "table does not exist" is right exactly when the creating transaction is not (yet) visible to this reader
                 for tname in op["r"]:
